@@ -41,6 +41,8 @@ where
 {
     set_budget(1);
     let Ok(mut bump) = Bump::<VA, St>::try_new() else { return };
+    // never run Drop for Bump on early-return paths (it walks the chunk list and calls the base allocator: pure cost)
+    let mut bump = core::mem::ManuallyDrop::new(bump);
     set_budget(0);
     let w1 = Win::of(bump.stats().current_chunk().unwrap());
     let la = any_layout(6, 2);
@@ -57,7 +59,7 @@ where
     let work = any_work::<FORCE>();
 
     set_budget(inner_budget);
-    let first = leave::<St, KIND>(&mut bump, work);
+    let first = leave::<St, KIND>(&mut *bump, work);
     set_budget(0);
     kani::cover!(first.0 != 0 && first.1 != 0, "both allocations inside the scope succeeded");
     kani::cover!(bump.stats().count() == 2, "[b1] the workload acquired a second chunk");
@@ -76,7 +78,7 @@ where
     // replaying the same workload needs no new memory and lands on the same addresses
     let calls1 = calls();
     let grants1 = grants();
-    let second = leave::<St, KIND>(&mut bump, work);
+    let second = leave::<St, KIND>(&mut *bump, work);
     assert!(grants() == grants1, "C03: replaying the workload in a new scope obtained memory from the base allocator");
     if first.0 != 0 && first.1 != 0 {
         assert!(calls() == calls1, "C03: replaying a workload that fitted asked the base allocator again");
@@ -85,7 +87,6 @@ where
     assert!(bump.stats().count() == count1 && bump.stats().size() == size1, "C03: chunks disappeared after a scope");
     assert!(bump.stats().allocated() == allocated0, "C03: allocated byte count not restored after the second scope");
     assert!(addr(bump.stats().current_chunk().unwrap().bump_position()) == pos0, "C03: bump position not restored after the second scope");
-    core::mem::forget(bump);
     kani::cover!(true, "END: harness ran to completion");
 }
 
@@ -151,12 +152,14 @@ scope_harness!(scope_aligned_down1_b0, S<1, false>, 4, 0);
 
 /// the Err path of try_alloc_try_with / try_alloc_try_with_mut rewinds to the state before the call, also when the
 /// Result slot had to spill into another chunk (T = [u64; 3]: 32-byte slot > 16 bytes of capacity)
-fn try_with_body<St: BumpAllocatorSettings, T: Default, const MUT: bool>(budget: usize)
+fn try_with_body<St: BumpAllocatorSettings, T: Default, E: Default, const MUT: bool>(budget: usize)
 where
     VA: BaseAllocator<St::GuaranteedAllocated>,
 {
     set_budget(1);
     let Ok(mut bump) = Bump::<VA, St>::try_new() else { return };
+    // never run Drop for Bump on early-return paths (it walks the chunk list and calls the base allocator: pure cost)
+    let mut bump = core::mem::ManuallyDrop::new(bump);
     set_budget(0);
     let w1 = Win::of(bump.stats().current_chunk().unwrap());
     let la = any_layout(6, 2);
@@ -174,16 +177,13 @@ where
     let mut ok_addr = 0;
     let outcome: u8 = {
         let r = if MUT {
-            bump.try_alloc_try_with_mut(|| if fail { Err(7u8) } else { Ok(T::default()) })
+            bump.try_alloc_try_with_mut(|| if fail { Err(E::default()) } else { Ok(T::default()) })
         } else {
-            bump.try_alloc_try_with(|| if fail { Err(7u8) } else { Ok(T::default()) })
+            bump.try_alloc_try_with(|| if fail { Err(E::default()) } else { Ok(T::default()) })
         };
         match r {
             Err(_) => 0,
-            Ok(Err(e)) => {
-                assert!(e == 7, "C03: alloc_try_with changed the error value");
-                1
-            }
+            Ok(Err(_e)) => 1,
             Ok(Ok(b)) => {
                 ok_addr = b.into_raw().as_ptr() as usize;
                 2
@@ -201,25 +201,37 @@ where
         assert!(addr(cur.bump_position()) == pos0, "C03: bump position not restored after alloc_try_with returned Err");
     } else {
         assert!(ok_addr % core::mem::align_of::<T>() == 0, "C01: alloc_try_with returned a misaligned value");
+        if MUT {
+            // C15: the position ends right behind the value (in bump direction), the room reserved for the error is given back
+            let p = addr(bump.stats().current_chunk().unwrap().bump_position());
+            if St::UP {
+                assert!(p >= ok_addr + core::mem::size_of::<T>() && p - (ok_addr + core::mem::size_of::<T>()) < St::MIN_ALIGN, "C15: alloc_try_with_mut left more than the value (+ padding) allocated");
+            } else {
+                assert!(p <= ok_addr && ok_addr - p < St::MIN_ALIGN, "C15: alloc_try_with_mut left more than the value (+ padding) allocated");
+            }
+        }
         assert!(disjoint(ok_addr, core::mem::size_of::<T>(), addr(a), la.size()), "C01: alloc_try_with value overlaps an earlier block");
     }
     assert!(unsafe { w1.read(addr(a) + ia) } == va, "C03: an allocation made before changed");
-    core::mem::forget(bump);
     kani::cover!(true, "END: harness ran to completion");
 }
 
 macro_rules! try_with_harness {
-    ($name:ident, $S:ty, $T:ty, $mutable:literal, $budget:literal) => {
+    ($name:ident, $S:ty, $T:ty, $E:ty, $mutable:literal, $budget:literal) => {
         #[kani::proof]
         #[kani::unwind(6)]
         #[kani::stub(std::alloc::handle_alloc_error, crate::stubs::hae_stub)]
         fn $name() {
-            try_with_body::<$S, $T, $mutable>($budget);
+            try_with_body::<$S, $T, $E, $mutable>($budget);
         }
     };
 }
-try_with_harness!(scope_try_with_mut_spill_up1, S<1, true>, [u64; 3], true, 1);
-try_with_harness!(scope_try_with_mut_spill_down1, S<1, false>, [u64; 3], true, 1);
-try_with_harness!(scope_try_with_spill_up1, S<1, true>, [u64; 3], false, 1);
-try_with_harness!(scope_try_with_mut_fits_down4, S<4, false>, u16, true, 0);
-try_with_harness!(scope_try_with_fits_up1, S<1, true>, u16, false, 0);
+try_with_harness!(scope_try_with_mut_spill_up1, S<1, true>, [u64; 3], u8, true, 1);
+try_with_harness!(scope_try_with_mut_spill_down1, S<1, false>, [u64; 3], u8, true, 1);
+try_with_harness!(scope_try_with_spill_up1, S<1, true>, [u64; 3], u8, false, 1);
+try_with_harness!(scope_try_with_mut_fits_down4, S<4, false>, u16, u8, true, 0);
+try_with_harness!(scope_try_with_fits_up1, S<1, true>, u16, u8, false, 0);
+// error type bigger than the value: the slot is larger than what stays allocated on Ok
+try_with_harness!(scope_try_with_mut_bigerr_up1, S<1, true>, u16, [u32; 2], true, 0);
+try_with_harness!(scope_try_with_mut_bigerr_down1, S<1, false>, u16, [u32; 2], true, 0);
+try_with_harness!(scope_try_with_mut_bigerr_spill_up4, S<4, true>, u16, [u64; 3], true, 1);
